@@ -397,6 +397,13 @@ def mechDelete (prop : TProp) (targetExt trapResult throw : Bool) : Out Bool :=
   | .ok _ => .ok trapResult
   | .typeError => .typeError
 
+/-- proxy.go:900 construct (trap present): `return p.val.runtime.toObject(v)` — a non-object result is a TypeError.
+For a Go ProxyTrapConfig handler the result is a `*Object`; nil is a non-object (builtin_proxy.go construct). -/
+def mechConstruct (trapResult : Val) : Out Nat :=
+  match toObject? trapResult with
+  | some o => .ok o
+  | none => .typeError
+
 /-- property keys; an integer index and its canonical string are one key (propNameSet compares
 `prop.string()`), symbols by identity. -/
 inductive Key where
@@ -628,6 +635,12 @@ def specIsExtensible (targetResult trapResult : Bool) : Out Bool :=
 def specPreventExtensions (extensibleTarget trapResult throw : Bool) : Out Bool :=
   if trapResult then (if extensibleTarget then .typeError else .ok true)
   else if throw then .typeError else .ok false
+
+/-- §10.5.13 [[Construct]] step 9–10: the trap's result must be an Object -/
+def specConstruct (trapResult : Val) : Out Nat :=
+  match trapResult with
+  | .obj o => .ok o
+  | _ => .typeError
 
 /-- the valid keys of a trap result, in order; `none` if some element is neither String nor Symbol
 (§7.3.19 CreateListFromArrayLike with «String, Symbol») -/
